@@ -24,6 +24,10 @@ ASSUMPTIONS = [
 ]
 
 EXTRA = [
+    # guard false right after the initial block: the state is frozen from iteration 0 on
+    "x = 5\nc = 0\nwhile c == 1:\n    x = x + 1\n    c = Bernoulli(1/2)\nend\n",
+    "x = 5\ny = 0\nwhile x < 3:\n    x = x + 1\n    y = y + 1\nend\n",
+    "c = 0 {1/2} 1\nx = 0\nwhile c == 1:\n    x = x + 1\n    c = Bernoulli(1/2)\nend\n",
     # random initial blocks (probabilistic choice / draws before the loop)
     "x = 1 {1/4} 5\ny = 0\nwhile y < 2:\n    y = y + 1\n    x = x + y\nend\n",
     "x = Bernoulli(1/4)\ny = 0 {1/2} 1\nwhile true:\n    y = y + x\nend\n",
